@@ -2,6 +2,7 @@ package engine
 
 import (
 	"go/token"
+	"go/types"
 	"strings"
 
 	"golang.org/x/tools/go/ssa"
@@ -168,6 +169,206 @@ func sliceHasDeep(v ssa.Value, m M, depth int, seen map[*ssa.Function]bool) bool
 					}
 				}
 			}
+		}
+	}
+	return false
+}
+
+// ---------------------------------------------------------------------------
+// Values carried through a local struct, possibly one returned by a helper.
+
+// StructFieldDefs resolves a read  x.f  of a local struct variable x (a load of &alloc.f) to the
+// definitions the field can have there: the value of the latest store to the field — or to the
+// whole struct — that dominates the read. A whole-struct store of another local's value or of the
+// result of a repository function is followed (into that function: once per return, with the
+// facts of the return). A field never stored is its zero value (a nil constant for pointers,
+// slices, maps and interfaces). ok is false when the read cannot be resolved that way (a store
+// on a path that does not dominate the read, an escaping address, an unknown producer).
+func StructFieldDefs(v ssa.Value) ([]Leaf, bool) {
+	ld, ok := v.(*ssa.UnOp)
+	if !ok || ld.Op != token.MUL {
+		return nil, false
+	}
+	fa, ok := ld.X.(*ssa.FieldAddr)
+	if !ok {
+		return nil, false
+	}
+	al, ok := fa.X.(*ssa.Alloc)
+	if !ok {
+		return nil, false
+	}
+	return fieldDefsAt(al, fa.Field, ld, 0)
+}
+
+func instrIndex(in ssa.Instruction) int {
+	for i, x := range in.Block().Instrs {
+		if x == in {
+			return i
+		}
+	}
+	return -1
+}
+
+// before reports whether a is executed before b on every path to b (dominance, or earlier in the block).
+func before(a, b ssa.Instruction) bool {
+	if a.Block() == b.Block() {
+		return instrIndex(a) < instrIndex(b)
+	}
+	return a.Block().Dominates(b.Block())
+}
+
+func fieldDefsAt(al *ssa.Alloc, field int, at ssa.Instruction, depth int) ([]Leaf, bool) {
+	if depth > 4 || al.Referrers() == nil {
+		return nil, false
+	}
+	// candidate writers: stores to &al.field, stores to al itself; anything else that lets the address escape fails
+	var writers []*ssa.Store
+	for _, r := range *al.Referrers() {
+		switch x := r.(type) {
+		case *ssa.Store:
+			if x.Addr == ssa.Value(al) {
+				writers = append(writers, x)
+			} else {
+				return nil, false // the struct's address is stored somewhere
+			}
+		case *ssa.FieldAddr:
+			if x.Referrers() == nil {
+				continue
+			}
+			for _, r2 := range *x.Referrers() {
+				switch y := r2.(type) {
+				case *ssa.Store:
+					if y.Addr == ssa.Value(x) {
+						if x.Field == field {
+							writers = append(writers, y)
+						}
+					} else {
+						return nil, false
+					}
+				case *ssa.UnOp, *ssa.DebugRef:
+				case *ssa.FieldAddr, *ssa.IndexAddr:
+					// nested cell: a write below it is not tracked
+					if x.Field == field {
+						return nil, false
+					}
+				default:
+					if x.Field == field {
+						return nil, false
+					}
+				}
+			}
+		case *ssa.UnOp, *ssa.DebugRef:
+		default:
+			return nil, false
+		}
+	}
+	var last *ssa.Store
+	for _, w := range writers {
+		if before(w, at) {
+			if last == nil || before(last, w) {
+				last = w
+			}
+			continue
+		}
+		// a writer that may run before the read without dominating it: not decidable here
+		if w.Block() == at.Block() || reachesBlock(w.Block(), at.Block()) {
+			return nil, false
+		}
+	}
+	if last == nil {
+		// zero value
+		ft := fieldTypeOf(al, field)
+		if ft == nil {
+			return nil, false
+		}
+		switch ft.Underlying().(type) {
+		case *types.Pointer, *types.Slice, *types.Map, *types.Interface, *types.Signature, *types.Chan:
+			return []Leaf{{V: ssa.NewConst(nil, ft)}}, true
+		}
+		return nil, false
+	}
+	if last.Addr != ssa.Value(al) {
+		return []Leaf{{V: last.Val}}, true // a store to the field itself
+	}
+	// whole-struct store
+	switch src := last.Val.(type) {
+	case *ssa.UnOp:
+		if src.Op == token.MUL {
+			if al2, ok := src.X.(*ssa.Alloc); ok {
+				return fieldDefsAt(al2, field, src, depth+1)
+			}
+		}
+	case *ssa.Call:
+		g := src.Call.StaticCallee()
+		if g == nil || g.Blocks == nil || g.Pkg == nil || !strings.HasPrefix(g.Pkg.Pkg.Path(), ModPath) || g.Signature.Results().Len() != 1 {
+			return nil, false
+		}
+		var out []Leaf
+		for _, b := range g.Blocks {
+			if b == g.Recover {
+				continue
+			}
+			for _, in := range b.Instrs {
+				ret, isRet := in.(*ssa.Return)
+				if !isRet || len(ret.Results) != 1 {
+					continue
+				}
+				rl, ok := ret.Results[0].(*ssa.UnOp)
+				if !ok || rl.Op != token.MUL {
+					return nil, false
+				}
+				al2, ok := rl.X.(*ssa.Alloc)
+				if !ok {
+					return nil, false
+				}
+				defs, ok := fieldDefsAt(al2, field, rl, depth+1)
+				if !ok {
+					return nil, false
+				}
+				fs := FactsFor(g).At(ret.Block())
+				for _, d := range defs {
+					out = append(out, Leaf{V: d.V, Facts: append(append([]Fact{}, d.Facts...), fs...)})
+				}
+			}
+		}
+		return out, len(out) > 0
+	}
+	return nil, false
+}
+
+func fieldTypeOf(al *ssa.Alloc, field int) types.Type {
+	pt, ok := al.Type().Underlying().(*types.Pointer)
+	if !ok {
+		return nil
+	}
+	st, ok := pt.Elem().Underlying().(*types.Struct)
+	if !ok || field >= st.NumFields() {
+		return nil
+	}
+	return st.Field(field).Type()
+}
+
+func reachesBlock(from, to *ssa.BasicBlock) bool {
+	seen := map[*ssa.BasicBlock]bool{}
+	var walk func(b *ssa.BasicBlock) bool
+	walk = func(b *ssa.BasicBlock) bool {
+		if b == to {
+			return true
+		}
+		if seen[b] {
+			return false
+		}
+		seen[b] = true
+		for _, s := range b.Succs {
+			if walk(s) {
+				return true
+			}
+		}
+		return false
+	}
+	for _, s := range from.Succs {
+		if walk(s) {
+			return true
 		}
 	}
 	return false
